@@ -150,6 +150,13 @@ def rule_shave_bound(ctx: Ctx, prog: Program) -> None:
                     ctx.violation("R-SHAVE", fn.path, "shave_bound", "own-store", f"{fn.path}:{e.line}", f"shave_bound stores into {View(e.root, e.idx)!r}")
 
 
+def _path_line(bp, loop) -> int:
+    for e in reversed(bp.events):
+        if getattr(e, "line", 0):
+            return e.line
+    return loop.node.lineno
+
+
 def rule_shaving_loop(ctx: Ctx, prog: Program) -> None:
     ctx.rule("R-SHAVE")
     fn = prog.func(f"{prog.package}.{MOD}", "shaving_consistency_algorithm")
@@ -253,6 +260,52 @@ def rule_shaving_loop(ctx: Ctx, prog: Program) -> None:
             else:
                 ctx.violation("R-SHAVE", fn.path, fn.name, "probe-args", f"{fn.path}:{c.line}", f"shave_bound called with {[repr(x) for x in got]}")
     ctx.floor("R-SHAVE:iterations-after-shave", n, 1)
+    # ---- the bound selector handed to shave_bound is MIN or MAX in every iteration: it indexes the last axis (extent 2) of the domain
+    # stack in compiled code, where an index of 2 is the MIN cell of the NEXT shared domain.  Inductive argument over the loop-carried local:
+    # it is MIN / MAX before the loop, and every path that goes round again leaves it in [MIN, MAX] if it found it there.
+    MINc, MAXc = prog.C("MIN"), prog.C("MAX")
+    lo_k, hi_k = K(min(MINc, MAXc)), K(max(MINc, MAXc))
+    sel_names = set()
+    for bp in loop.paths:
+        for c in calls_named(bp.events, "shave_bound"):
+            v = it.value_at(bp.state, c.hpos, c.args[0]) if c.args else None
+            if isinstance(v, Aff):
+                for nm in loop.assigned:
+                    if Aff.atom(("lv", nm, loop.loop_id)) == v:
+                        sel_names.add(nm)
+                if v.is_const():
+                    if not (lo_k.c <= v.c <= hi_k.c):
+                        ctx.violation("R-SHAVE", fn.path, fn.name, "bound-argument-range", f"{fn.path}:{c.line}", f"shave_bound is asked to probe bound {v.c}: not MIN / MAX")
+                    else:
+                        ctx.ok("R-SHAVE", "the probed bound is a constant MIN / MAX", nontrivial=False)
+    for nm in sorted(sel_names):
+        pre = loop.pre_env.get(nm)
+        pre_v = it.scalar(State(), pre) if pre is not None else None
+        if not (isinstance(pre_v, Aff) and pre_v.is_const() and lo_k.c <= pre_v.c <= hi_k.c):
+            ctx.violation("R-SHAVE", fn.path, fn.name, "bound-argument-range", f"{fn.path}:{loop.node.lineno}", f"the bound selector `{nm}` does not start as MIN or MAX")
+            continue
+        head = Aff.atom(("lv", nm, loop.loop_id))
+        bad = None
+        for bp in loop.paths:
+            if bp.outcome not in ("fall", "continue"):
+                continue
+            end = it.scalar(bp.state, bp.state.env.get(nm))
+            if not isinstance(end, Aff):
+                bad = (bp, "not an integer the analysis follows")
+                break
+            f2 = bp.state.facts.copy()
+            f2.add(cmp_cond(">=", head, lo_k))
+            f2.add(cmp_cond("<=", head, hi_k))
+            if not (f2.entails(cmp_cond(">=", end, lo_k)) and f2.entails(cmp_cond("<=", end, hi_k))):
+                bad = (bp, f"ends the iteration as {show_val(end)}")
+                break
+        if bad is None:
+            ctx.ok("R-SHAVE", f"the bound selector `{nm}` stays in [MIN, MAX] around the probing loop (inductive)")
+        else:
+            ctx.violation("R-SHAVE", fn.path, fn.name, "bound-argument-range", f"{fn.path}:{_path_line(bad[0], loop)}",
+                          f"the bound selector `{nm}` handed to shave_bound is not kept in [MIN, MAX] by an iteration that goes round again ({bad[1]}, "
+                          "with the selector in [MIN, MAX] at its start): the next probe indexes the bound axis of the domain stack with 2, which in compiled "
+                          "code is the minimum of the NEXT shared domain - that domain is silently modified")
     # ---- progress of the probing loop (its variant): an iteration that goes round again must have probed a bound.
     # A probe either removes a value (finitely often) or, when it removes nothing, advances (domain cursor, bound) lexicographically.
     n_round = 0
